@@ -1034,7 +1034,11 @@ func (in *inliner) expand(pk *packages.Package, file *ast.File, st *site, ownerD
 			return fail("a parameter type cannot be written in the calling file")
 		}
 		var vals []ast.Expr
-		if lit, isLit := st.call.Args[i].(*ast.FuncLit); isLit && !(sig.Variadic() && i == nparams-1) {
+		var argI ast.Expr
+		if i < len(st.call.Args) && !(sig.Variadic() && i == nparams-1) {
+			argI = st.call.Args[i]
+		}
+		if lit, isLit := argI.(*ast.FuncLit); isLit {
 			// a function literal handed to a parameter that the callee only
 			// ever calls: the literal becomes a local closure of the caller
 			// under a fresh name (evaluating a literal has no effect, so its
@@ -1048,7 +1052,7 @@ func (in *inliner) expand(pk *packages.Package, file *ast.File, st *site, ownerD
 				continue
 			}
 		}
-		if id, isId := st.call.Args[i].(*ast.Ident); isId && !(sig.Variadic() && i == nparams-1) {
+		if id, isId := argI.(*ast.Ident); isId {
 			// a package-level function of this package handed to a parameter
 			// that the callee only ever calls: the calls name the function
 			// directly (unless the callee's body uses that name for something
@@ -1132,6 +1136,12 @@ func (in *inliner) expand(pk *packages.Package, file *ast.File, st *site, ownerD
 			obj = c.pkg.TypesInfo.Defs[o]
 		}
 		if obj == nil {
+			// the symbolic variable of a type switch (`switch v := x.(type)`)
+			// is recorded as a definition without an object; its uses are
+			// the per-clause variables, declared at its position
+			if d, isDef := c.pkg.TypesInfo.Defs[o]; isDef && d == nil && o.Pos() >= declLo && o.Pos() < declHi {
+				cp.Name = ren(cp.Name)
+			}
 			return
 		}
 		if v, _ := obj.(*types.Var); v != nil {
